@@ -1341,6 +1341,10 @@ class Printer:
             if m in cc and len(I) == 1:
                 self.fire('sz:mapped-call')
                 return '(%s)' % cc[m]
+            wk = self.sz_wkey(obj, m)
+            if wk:
+                self.fire('sz:witness-call')
+                return '(%s)' % self.sz_wfill(self.unit['sz_witness'][wk], I[1:])
             if m in ('size', 'empty') and len(I) == 1:
                 names, _ = self.sz_path(obj)
                 if names:
@@ -1348,6 +1352,30 @@ class Printer:
                     return szv if m == 'size' else '(%s == 0)' % szv
             raise ExtractionBreak('call in scalar expression')
         raise ExtractionBreak('expression out of reach: %s' % k)
+
+    def sz_wkey(self, obj, m):
+        """key `<last member name>.<method>` of the unit's witness map, if the call object ends in a member access"""
+        b = obj
+        while b.get('kind') in ('ImplicitCastExpr', 'ParenExpr') and b.get('inner'):
+            b = b['inner'][0]
+        if b.get('kind') == 'MemberExpr':
+            k = '%s.%s' % (b.get('name'), m)
+            if k in self.unit.get('sz_witness', {}):
+                return k
+        return None
+
+    def sz_wfill(self, tmpl, args):
+        """$0, $1 ... are the call's arguments when they can be rendered as tracked scalars, otherwise an arbitrary value"""
+        for i_, a in enumerate(args):
+            if a.get('kind') == 'CXXDefaultArgExpr':
+                continue
+            try:
+                v = self.sz_e(a)
+            except ExtractionBreak:
+                self.fire('sz:witness-argument-arbitrary')
+                v = 'nondet_u32()'
+            tmpl = tmpl.replace('$%d' % i_, '(%s)' % v)
+        return tmpl
 
     def sz_havoc(self, lv, ct):
         return '{ %s nd_; %s = nd_; }' % (ct, lv)
@@ -1417,22 +1445,80 @@ class Printer:
             if k == 'ForStmt' and I and I[0] and I[0].get('kind') == 'DeclStmt':
                 pre = self.st_sz(I[0], ind + 1)
             btxt = self.st_sz(body, ind + 1)
-            targets = sorted(set(re.findall(r'^\s*(?:\{ \w+ nd_; )?(self->\w+|\w+) = ', btxt, re.M)))
+            inc = ''
+            if k == 'ForStmt' and len(I) > 3 and I[3] and I[3].get('kind'):
+                inc = self.st_sz(I[3], ind + 1)
+            targets = sorted(set(re.findall(r'^\s*(?:\{ \w+ nd_; )?(self->\w+|\w+) = ', btxt + inc, re.M)))
             hv = ''
             for tg in targets:
                 if tg.startswith('self->'):
                     ct = self.unit['_selfs'][self.unit['self']].get(tg[6:])
                 else:
                     ct = self.sz_local_types.get(tg)
-                if ct and not re.search(r'^\s*%s %s\b' % (re.escape(ct), re.escape(tg)), btxt + pre, re.M):
+                if ct and not re.search(r'^\s*%s %s\b' % (re.escape(ct), re.escape(tg)), btxt, re.M):
                     hv += t + '\t' + self.sz_havoc(tg, ct) + '\n'
+            if self.unit.get('sz_concrete_loops'):
+                # invariant-independent re-check (triage): the loop as a loop, explored up to the unwinding bound
+                cnd = None
+                if k in ('ForStmt', 'WhileStmt'):
+                    cnode = I[2] if k == 'ForStmt' else I[0]
+                    try:
+                        cnd = self.sz_e(cnode) if cnode and cnode.get('kind') else None
+                    except ExtractionBreak:
+                        cnd = None
+                self.fire('sz:loop-concrete')
+                self.sz_locals = saved if k != 'ForStmt' else self.sz_locals
+                return t + '{\n' + pre + t + '\twhile (%s)\n' % (cnd or 'nondet_bool()') + t + '\t{\n' + btxt + inc + t + '\t}\n' + t + '}\n'
             self.fire('sz:loop-as-havoc-then-optional-body')
+            self.sz_loop_no = getattr(self, 'sz_loop_no', 0) + 1
+            inv = self.unit.get('sz_loop_inv_%d' % self.sz_loop_no) or self.unit.get('sz_loop_inv')
+            if inv:
+                # loop abstraction by an INDUCTIVE INVARIANT: it holds on entry (asserted); an arbitrary state satisfying it, followed by
+                # one iteration, satisfies it again (asserted); after the loop: the entry state (no iteration) or such a state
+                for hv_ in self.unit.get('sz_loop_havoc', []):
+                    nm_, ct_ = hv_.split(':')
+                    if re.search(r'\b%s\b' % re.escape(nm_), btxt) or any(c_ in btxt for c_ in self.unit.get('sz_call_map', {}).values()):
+                        hv += t + '\t' + self.sz_havoc(nm_, ct_) + '\n'
+                cnd = None
+                if k in ('ForStmt', 'WhileStmt'):
+                    cnode = I[2] if k == 'ForStmt' else I[0]
+                    try:
+                        cnd = self.sz_e(cnode) if cnode and cnode.get('kind') else None
+                    except ExtractionBreak:
+                        cnd = None
+                self.fire('sz:loop-by-invariant')
+                s_ = t + '{\n' + pre
+                s_ += t + '\t__CPROVER_assert(%s, "loop %d: invariant holds on entry");\n' % (inv, self.sz_loop_no)
+                s_ += t + '\tif (nondet_bool())\n' + t + '\t{\n' + hv + t + '\t\t__CPROVER_assume(%s);\n' % inv
+                if cnd:
+                    s_ += t + '\t\t__CPROVER_assume(%s);\n' % cnd
+                s_ += btxt
+                if k == 'ForStmt' and len(I) > 3 and I[3] and I[3].get('kind'):
+                    s_ += self.st_sz(I[3], ind + 2)
+                s_ += t + '\t\t__CPROVER_assert(%s, "loop %d: invariant preserved by an iteration");\n' % (inv, self.sz_loop_no)
+                s_ += t + '\t}\n'
+                if cnd and not any(x.get('kind') == 'BreakStmt' for x in walk(body)):
+                    s_ += t + '\t__CPROVER_assume(!(%s));\n' % cnd
+                s_ += t + '}\n'
+                self.sz_locals = saved if k != 'ForStmt' else self.sz_locals
+                return s_
             self.sz_locals = saved if k != 'ForStmt' else self.sz_locals
             # 0 iterations: skipped; >= 1 iterations: arbitrary state of everything the body assigns, then the last iteration
             return t + 'if (nondet_bool())\n' + t + '{\n' + pre + hv + btxt + t + '}\n'
         nn = n
         while nn.get('kind') in ('ExprWithCleanups', 'ImplicitCastExpr', 'ParenExpr') and nn.get('inner'):
             nn = nn['inner'][0]
+        if nn.get('kind') == 'CXXMemberCallExpr' and nn.get('inner') and nn['inner'][0].get('kind') == 'MemberExpr':
+            me0 = nn['inner'][0]
+            wk = self.sz_wkey(me0['inner'][0] if me0.get('inner') else {}, me0.get('name'))
+            if wk:
+                self.fire('sz:witness-statement')
+                return t + self.sz_wfill(self.unit['sz_witness'][wk], nn['inner'][1:]) + ';\n'
+            if me0.get('name') in self.unit.get('sz_call_map', {}):
+                self.fire('sz:mapped-call-statement')
+                fnm = self.unit['sz_call_map'][me0['name']]
+                self.called[fnm.split('(')[0]] += 1
+                return t + fnm + ';\n'
         if nn.get('kind') == 'CXXMemberCallExpr' and nn.get('inner'):
             me = nn['inner'][0]
             m = me.get('name')
@@ -1482,8 +1568,31 @@ class Printer:
             return t + '/* call of %s: assumed not to change tracked fields */;\n' % m
         if nn.get('kind') == 'CallExpr':
             f_ = self.callee_decl(nn['inner'][0]) if nn.get('inner') else {}
+            fn0 = f_.get('name') or f_.get('referencedDecl', {}).get('name')
+            if fn0 in self.unit.get('sz_call_map', {}):
+                self.fire('sz:mapped-call-statement')
+                return t + self.unit['sz_call_map'][fn0] + ';\n'
             self.fire('sz:call-assumed-neutral:%s' % (f_.get('name') or f_.get('referencedDecl', {}).get('name')))
             return t + '/* free function call */;\n'
+        if nn.get('kind') == 'BinaryOperator' and nn.get('opcode') == '=' and self.unit.get('sz_witness'):
+            l0 = nn['inner'][0]
+            while l0.get('kind') in ('ImplicitCastExpr', 'ParenExpr') and l0.get('inner'):
+                l0 = l0['inner'][0]
+            if l0.get('kind') == 'CXXOperatorCallExpr' and len(l0.get('inner', [])) == 3:
+                cont = l0['inner'][1]
+                while cont.get('kind') in ('ImplicitCastExpr', 'ParenExpr') and cont.get('inner'):
+                    cont = cont['inner'][0]
+                if cont.get('kind') == 'MemberExpr':
+                    incs = [x for x in walk(nn['inner'][1]) if x.get('kind') == 'UnaryOperator' and x.get('opcode') == '++' and any(y.get('kind') == 'MemberExpr' for y in walk(x))]
+                    rhs_name = None
+                    for x in incs:
+                        for y in walk(x):
+                            if y.get('kind') == 'MemberExpr':
+                                rhs_name = y.get('name')
+                    key = '%s[]=%s++' % (cont.get('name'), rhs_name) if rhs_name else '%s[]=' % cont.get('name')
+                    if key in self.unit['sz_witness']:
+                        self.fire('sz:witness-assignment')
+                        return t + self.sz_wfill(self.unit['sz_witness'][key], [l0['inner'][2]]) + ';\n'
         if nn.get('kind') in ('BinaryOperator', 'CompoundAssignOperator') and (nn.get('opcode') == '=' or nn.get('kind') == 'CompoundAssignOperator'):
             lhs = nn['inner'][0]
             while lhs.get('kind') in ('ImplicitCastExpr', 'ParenExpr') and lhs.get('inner'):
@@ -1515,7 +1624,7 @@ class Printer:
             x = nn['inner'][0]
             if x.get('kind') == 'DeclRefExpr' and x.get('referencedDecl', {}).get('id') in self.sz_locals:
                 nm = self.sz_locals[x['referencedDecl']['id']]
-                return t + self.sz_havoc(nm, self.sz_local_types[nm]) + '\n'
+                return t + '%s = (%s)(%s %s 1);\n' % (nm, self.sz_local_types[nm], nm, '+' if nn['opcode'] == '++' else '-')
             return t + ';\n'
         if nn.get('kind') == 'CXXOperatorCallExpr':
             # whole-object assignment (vector = vector ...): size of a tracked container becomes unknown
@@ -1718,6 +1827,16 @@ def render_function(unit, docs, types):
     body = [c for c in fn['inner'] if c.get('kind') == 'CompoundStmt'][0]
     if unit.get('abstract') == 'sizes':
         p.local_ids = set()
+        p.sz_locals = {}
+        p.sz_local_types = {}
+        if unit.get('sz_params'):
+            for c in fn.get('inner', []):
+                if c.get('kind') == 'ParmVarDecl':
+                    tq = Types.strip(c['type'].get('desugaredQualType') or c['type']['qualType'])
+                    if tq in SCALARS and not types.is_ref(c['type']['qualType']):
+                        p.sz_locals[c['id']] = c['name']
+                        p.sz_local_types[c['name']] = SCALARS[tq]
+                        params.append('%s %s' % (SCALARS[tq], c['name']))
         btxt = p.st_sz(body, 0)
         ret = 'void'
     elif unit.get('abstract'):
